@@ -24,6 +24,9 @@ from workflows.events import StartEvent, StepFailedEvent, StopEvent
 from workflows.retry_policy import retry_policy, stop_after_attempt, wait_fixed
 
 PID = "C13"
+from llama_agents.server._store.sqlite import sqlite_workflow_store as _sws  # noqa: E402
+
+_sws._TICK_PAGE_SIZE = 3  # configuration constant: the 10-25 tick logs of these programs span several stream_ticks pages
 
 
 # ------------------------------------------------------------------ deterministic workflows -------------------
@@ -282,7 +285,8 @@ def run(tier: str, seed: int) -> Any:
         "a process stop is modelled by raising a KeyboardInterrupt-class exception out of append_tick: no callback of that loop runs "
         "afterwards; the durable state is the MemoryWorkflowStore instance / the SQLite file",
         "a client whose event was not yet persisted when the process stopped sends it again after the restart",
-        "async steps, schedule-independent workflows (first verified on all uninterrupted schedules)"])
+        "async steps, schedule-independent workflows (first verified on all uninterrupted schedules)",
+        "_TICK_PAGE_SIZE of the SQLite store is set to 3 by the harness so that short tick logs span several pages"])
 
 
 def replay(rec: dict[str, Any]) -> tuple[bool, str]:
